@@ -134,8 +134,10 @@ class OrderedControllers:
 
 
 class World:
-    def __init__(self, n, ext=(), classic=False, seed=0, hci_delay=0.0, link_delay=0.0, same_bytes=False, patch=None, slow=None):
+    def __init__(self, n, ext=(), classic=False, seed=0, hci_delay=0.0, link_delay=0.0, same_bytes=False, patch=None, slow=None, vary_rsp=False):
         self.n = n
+        self.vary_rsp = vary_rsp  # every other advertising round of a device has an EMPTY scan response (and other advertising data)
+        self.adv_round = {}
         self.rng = random.Random(seed)
         self.same_bytes = same_bytes
         self.hci_delay, self.link_delay = hci_delay, link_delay
@@ -155,6 +157,7 @@ class World:
         for i in self.stacks:
             body = bytes(self.rng.randrange(256) for _ in range(6))
             self.adv_payload[i] = (bytes([8, 0xFF, 0xA0 + i]) + body, bytes([8, 0xFF, 0xB0 + i]) + body[::-1])
+        self.base_payload = dict(self.adv_payload)
         if patch:
             patch(self)
 
@@ -177,15 +180,17 @@ class World:
     def classify(self, data):
         """-> (what, src) for an advertising / scan-response / advertisement payload"""
         data = bytes(data)
-        if data == b"":
+        if data == b"" and not self.vary_rsp:
             return "empty", 0
         for i, (ad, sr) in self.adv_payload.items():
             if data == ad:
                 return "adv", i
-            if data == sr:
-                return "rsp", i
+            if data == sr and (sr or (self.vary_rsp and self.adv_round.get(i))):
+                return "rsp", i  # (an empty scan response of a device that has set an empty one is its scan response)
             if data == ad + sr:
                 return "advrsp", i
+        if data == b"":
+            return "empty", 0
         return "other", 0
 
     def log(self, e, **kw):
@@ -318,6 +323,12 @@ class World:
     async def start_adv(self, i, kind, flav):
         st = self.stacks[i]
         own = OwnAddressType.PUBLIC if kind == "pub" else OwnAddressType.RANDOM
+        if self.vary_rsp:
+            # what a scanner is given is what the advertiser has set NOW: the payload changes from round to round, and
+            # every other round has no scan response at all (classify() only knows the current round's payload)
+            r = self.adv_round[i] = self.adv_round.get(i, 0) + 1
+            base_ad, base_sr = self.base_payload[i]
+            self.adv_payload[i] = (base_ad[:-1] + bytes([r & 0xFF]), base_sr if r % 2 else b"")
         ad, sr = self.adv_payload[i]
         self.log("adv", d=i, ak=kind, fl=flav)
         if flav == "ext":
